@@ -497,6 +497,16 @@ def storage_writes(run):
                 raise
             except Exception as ex:  # noqa: BLE001
                 run.count("storage_write.outcome", f"{kind}:{rep}:refused:{err_class(ex)}")
+                # a refused write must leave the entry as it was
+                try:
+                    after = content(td)
+                except Exception as ex2:  # noqa: BLE001
+                    after = f"unreadable ({type(ex2).__name__})"
+                if after != nested(a):
+                    run.oracle_fail("storage-write", case, f"the write was refused ({type(ex).__name__}: {str(ex)[:60]}) and the entry changed all the same: "
+                                    f"{str(after)[:100]} was {str(nested(a))[:100]}", fingerprint=f"{fp}:refused-modified")
+                else:
+                    run.oracle_ok("storage-write.refused-unchanged")
                 continue
             flat = a.reshape(-1).copy()
             flat[pos.numpy().reshape(-1)] = v.reshape(-1)
